@@ -62,7 +62,9 @@ def read_simulation_csv(csv_file):
                 window_signal = None
 
             try:
-                power_schedule = float(row["schedule [kW]"])
+                power_schedule = row["schedule [kW]"]
+                # None: no schedule received (yet)
+                power_schedule = float(power_schedule) if power_schedule != "None" else None
                 power_schedule_list.append(power_schedule)
             except KeyError:
                 power_schedule_list = None
